@@ -27,9 +27,10 @@ def candles_on(K):
 
 def scripts(K, J, R, F):
     """reaction scripts: <= R reactions, each bound to the f-th fill of the minute (f nondecreasing in 1..F);
-    a reaction submits one order at a lattice price or cancels the order with creation ordinal j (no-op when that
-    order is not active)"""
-    acts = [('s', p) for p in range(1, K + 1)] + [('c', j) for j in range(1, J + 1)]
+    a reaction submits one resting order at a lattice price ('s'), cancels the order with creation ordinal j ('c',
+    no-op when that order is not active) or submits a MARKET order at the current price through the real
+    exchange driver ('m': what liquidate() / an exit at the current price do inside a fill hook)"""
+    acts = [('s', p) for p in range(1, K + 1)] + [('c', j) for j in range(1, J + 1)] + [('m', 0)]
     res = [()]
     for r in range(1, R + 1):
         for fs in itertools.combinations_with_replacement(range(1, F + 1), r):
@@ -66,7 +67,7 @@ def scen_key(s):
         k += list(cd)
     k += [len(s['prices'])] + list(s['prices']) + [len(s['script'])]
     for f, kind, arg in s['script']:
-        k += [f, 0 if kind == 's' else 1, arg]
+        k += [f, {'s': 0, 'c': 1, 'm': 2}[kind], arg]
     return k
 
 
@@ -157,6 +158,14 @@ class ScenRunner:
                 continue
             if kind == 's':
                 self._new_order(arg, len(self.byord))
+            elif kind == 'm':
+                from jesse.services.api import api
+                cur = self.pos.current_price
+                side = 'sell' if self.pos.qty > 0 else 'buy'
+                o = api.market_order(self.ex, SYM, 1.0, cur, side, False)
+                o._v_ord = len(self.byord) + 1
+                self.byord[o._v_ord] = o
+                self.ev.append(('submit', o._v_ord, 'MARKET', o.price, o.qty, self._t(), side, cur))
             else:
                 o = self.byord.get(arg)
                 if o is not None and o.is_active:
@@ -209,10 +218,12 @@ class ScenRunner:
                 ev.append(('minute', 1))
                 self.bm._simulate_price_change_effect(arr[0].copy(), self.ex, SYM)
                 ev.append(('minute_end',))
+                st.orders.execute_pending_market_orders()        # the simulators' flush after the step
             else:
                 ev.append(('chunk', 1, m))
                 self.bm._simulate_price_change_effect_multiple_candles(arr.copy(), self.ex, SYM)
                 ev.append(('chunk_end',))
+                st.orders.execute_pending_market_orders()
         except Exception as ex:
             ev.append(('exc', type(ex).__name__, str(ex)[:200]))
         self.ev = None
@@ -225,6 +236,8 @@ def scenario_trace(tid, scn, ev, raw_vals, check, mode=None):
     for e in ev:
         if e[0] in ('submit', 'exec'):
             vals.add(e[3] if e[0] == 'submit' else e[4])
+        if e[0] == 'submit' and len(e) > 7:
+            vals.add(e[7])
     rk = {v: i + 1 for i, v in enumerate(sorted(vals))}
     out = []
     for e in ev:
@@ -232,7 +245,7 @@ def scenario_trace(tid, scn, ev, raw_vals, check, mode=None):
         if k == 'submit':
             out.append({'k': 'submit', 'oid': e[1], 'typ': e[2], 'p': rk[e[3]], 'q8': int(abs(e[4]) * 8),
                         'qh': float(abs(e[4])).hex(), 't': e[5],
-                        'side': e[6], 'cur': 0, 'ro': False, 'pu': 0, 'cu': 0})
+                        'side': e[6], 'cur': rk[e[7]] if len(e) > 7 else 0, 'ro': False, 'pu': 0, 'cu': 0})
         elif k == 'exec':
             out.append({'k': 'exec', 'oid': e[1], 'pre': e[2], 'post': e[3], 'p': rk[e[4]], 'q8': int(abs(e[5]) * 8),
                         'qh': float(abs(e[5])).hex(), 't': e[6], 'dq8': int(e[7] * 8), 'sq8': int(e[5] * 8)})
@@ -243,7 +256,7 @@ def scenario_trace(tid, scn, ev, raw_vals, check, mode=None):
         elif k == 'chunk':
             out.append({'k': 'chunk', 'i': e[1], 'n': e[2]})
         elif k in ('minute_end', 'chunk_end'):
-            out.append({'k': k})
+            out.append({'k': k, 'haspos': False, 'q8': 0, 'liq': 0})
         elif k == 'exc':
             break
     hdr = {'mode': mode or scn['kind'], 'check': list(check), 'raw': [[rk[v] for v in cd] for cd in raw_vals],
@@ -291,7 +304,8 @@ def vivo_trace(tid, rec_events, raw, cfg, mode, check, unit=1e-3, completed=True
                 vals.add(float(e['price']))
             if k == 'submit' and e.get('cur') is not None:
                 vals.add(float(e['cur']))
-        elif k == 'liqcheck' and e.get('liq') is not None and not (isinstance(e['liq'], float) and math.isnan(e['liq'])):
+        elif k in ('liqcheck', 'minute_end', 'chunk_end') and e.get('liq') is not None and \
+                not (isinstance(e['liq'], float) and math.isnan(e['liq'])):
             vals.add(float(e['liq']))
     rk = {v: i + 1 for i, v in enumerate(sorted(vals))}
     fee = encode.rat(cfg.get('fee', 0.0))
@@ -341,8 +355,12 @@ def vivo_trace(tid, rec_events, raw, cfg, mode, check, unit=1e-3, completed=True
             out.append({'k': 'minute', 'i': int((e['candle'][0] - raw[0][0]) // MIN) + 1})
         elif k == 'chunk':
             out.append({'k': 'chunk', 'i': int((e['candles'][0][0] - raw[0][0]) // MIN) + 1, 'n': len(e['candles'])})
-        elif k in ('minute_end', 'chunk_end'):
-            out.append({'k': k})
+        elif k in ('minute_end', 'chunk_end'):     # position after matching (and after the liquidation check, if any)
+            liq = e.get('liq')
+            has = liq is not None and not (isinstance(liq, float) and math.isnan(liq))
+            q = e.get('qty')
+            out.append({'k': k, 'haspos': q is not None, 'liq': rk[float(liq)] if has else 0,
+                        'q8': 0 if not q else q8_or(q, 77777777)})
         elif k == 'liqcheck':
             liq = e.get('liq')
             has = liq is not None and not (isinstance(liq, float) and math.isnan(liq))
@@ -434,6 +452,35 @@ def make_nested_market_strategy(seed):
     return NestedMarket
 
 
+def make_hook_market_strategy(seed):
+    """a ladder of resting entries; the fill hook of the first entry closes at market (liquidate(), or an exit declared
+    at the current price) while the other entries still rest further along the path"""
+    from jesse.strategies import Strategy
+
+    class HookMarket(Strategy):
+        def should_long(self):
+            return self.index % 4 == 1
+
+        def should_short(self):
+            return self.index % 4 == 3 and seed % 3 != 0
+
+        def go_long(self):
+            self.buy = [(1, self.price + 1), (1, self.price + 3), (1, self.price - 2)]
+
+        def go_short(self):
+            self.sell = [(1, self.price - 1), (1, self.price - 3), (1, self.price + 2)]
+
+        def should_cancel_entry(self):
+            return True
+
+        def on_open_position(self, order):
+            if (self.index + seed) % 3 != 2:
+                self.liquidate()
+            else:
+                self.take_profit = abs(self.position.qty), self.price
+    return HookMarket
+
+
 def _watchdog(seconds):
     """a strategy can drive jesse's matching loop into a livelock (a hook that flips the position with a market
     order each time it opens); a run that does not end is dropped and counted, it is not a verdict of C02/C08/C09"""
@@ -474,6 +521,8 @@ def run_vivo(item):
             cls = make_cancel_race_strategy(item['policy']['seed'])
         elif item.get('strategy') == 'nested_market':
             cls = make_nested_market_strategy(item['policy']['seed'])
+        elif item.get('strategy') == 'hook_market':
+            cls = make_hook_market_strategy(item['policy']['seed'])
         out = run_backtest(item['policy'], cfg, {sym: raws[sym].copy() for sym in syms}, routes=routes, fast=item['fast'],
                            strategy_cls=cls)
     except Hang:
@@ -514,6 +563,8 @@ def make_liq_strategy(p):
             return p['side'] == -1 and self.index == 2
 
         def _rows(self):
+            if p.get('entry') == 'resting':          # a LIMIT entry that a later candle fills on its way to the liquidation price
+                return [(p['q1'], self.price - p['side'] * p['d'])]
             rows = [(p['q1'], self.price)]
             if p['avg']:
                 rows.append((p['q2'], self.price - p['side'] * p['d']))
@@ -599,6 +650,14 @@ def liq_approach(pattern, P0, liq, side, tf=1, tp=None):
         # the path runs through the liquidation price first and then fills a partial take-profit on the other
         # side of the open: the position is still open after matching (long: o -> low = liq -> high = tp = close)
         return [(P0, tp, max(liq, tp), min(liq, tp))]
+    if pattern == 'open_and_touch_in_same_candle':
+        # the position is OPENED inside the candle / chunk (resting entry at x on the way) and the same candle / chunk
+        # then reaches the liquidation price of the new position
+        x = tp
+        m2 = (x + liq) / 2
+        if tf == 1:
+            return [(P0, m2, max(P0, liq), min(P0, liq))]
+        return [{'mins': [(P0, x, max(P0, x), min(P0, x)), (x, m2, max(x, liq), min(x, liq))] + [(m2, m2, m2, m2)] * (tf - 2)}]
     if pattern == 'gap_inside_chunk':
         # fast mode, chunk of several minutes: a close->open gap INSIDE the chunk jumps over the liquidation price,
         # no single minute contains it, the chunk's range does
@@ -611,7 +670,7 @@ def liq_approach(pattern, P0, liq, side, tf=1, tp=None):
 
 
 LIQ_PATTERNS = ['touch', 'miss', 'jump', 'close_at', 'miss_then_touch', 'gap_over', 'stay_away', 'touch_then_partial_tp',
-                'gap_inside_chunk']
+                'gap_inside_chunk', 'open_and_touch_in_same_candle']
 
 
 def run_liq_case(item):
@@ -633,7 +692,13 @@ def run_liq_case(item):
             signal.alarm(0)
             rec.uninstall()
         return rec, out
-    rec1, out1 = one(liq_series(p, []))
+    first = []
+    if item['pattern'] == 'open_and_touch_in_same_candle':
+        p = dict(p, entry='resting', avg=False, stop_rel=None, d=max(p['d'], 0.002 * p['P0']))
+        cls = make_liq_strategy(p)
+        x = float(p['P0'] - p['side'] * p['d'])
+        first = [(float(p['P0']), x, max(float(p['P0']), x), min(float(p['P0']), x))]     # pass 1: fill the entry, nothing else
+    rec1, out1 = one(liq_series(p, first))
     opened = [e for e in rec1.ev if e['k'] == 'liqcheck' and e['qty'] != 0]
     if not opened:
         return None, {'exc': out1.get('exc'), 'why': 'position never opened in pass 1'}
@@ -657,7 +722,8 @@ def run_liq_case(item):
             p['stop'] = None                               # a stop in front of the liquidation price would close first
         cls = make_liq_strategy(p)
         item = dict(item, p=p)
-    series = liq_series(p, liq_approach(item['pattern'], p['P0'], liq, p['side'], tf=p['tf'], tp=p.get('tp')))
+    aux = float(p['P0'] - p['side'] * p['d']) if p.get('entry') == 'resting' else p.get('tp')
+    series = liq_series(p, liq_approach(item['pattern'], p['P0'], liq, p['side'], tf=p['tf'], tp=aux))
     rec2, out2 = one(series)
     tr = vivo_trace(item['id'], rec2.ev, series, cfg, 'fast' if item['fast'] else 'step', ['liq'],
                     completed=out2.get('exc') is None)
